@@ -29,7 +29,8 @@ class C14(C02):
             "attestation sections of corresponding notes and blame --json of every file must be equal. distinct = digest "
             "of family x ops x perturbation kinds; non-trivial = AI line observed and at least one perturbation applied")
     assumptions = ["prompt metrics (additions/deletions counters) are not compared"]
-    expected_probes = ["ai_lines_observed", "perturb.dup", "perturb.split", "perturb.extra_human", "perturb.noop_cmd"]
+    expected_probes = ["ai_lines_observed", "perturb.dup", "perturb.split", "perturb.extra_human", "perturb.noop_cmd",
+                       "perturb.crash_redeliver", "ckpt_crash.fired"]
 
     def make_exec(self, root, trace):
         return PairExec(root, trace)
@@ -64,7 +65,18 @@ class C14(C02):
             if op["op"] == "edit" and rng.random() < p:
                 paths = sorted(op["files"])
                 if op["who"] != HUMAN:
-                    kind = rng.choice(["dup", "split", "dup"])
+                    kind = rng.choice(["dup", "split", "dup", "crash", "crash"])
+                    if kind == "crash" and (op.get("dirty") or op.get("agent")):
+                        kind = "dup"
+                    if kind == "crash":
+                        # delivery fault: the process that takes the report dies at a journal / snapshot point, the
+                        # agent reports again.  From here on the run is held to the one-sided oracle only (a crash may
+                        # lose attribution, it must never invent any)
+                        point = rng.choice(["ckpt.blob.write#1", "ckpt.blob.write#1", "ckpt.blob.write#2", "ckpt.run.after_read#1",
+                                            "ckpt.append.before_read#1", "ckpt.append.before_write#1", "ckpt.write_all#1"])
+                        op["b_crash"] = "%s=%s" % (point, rng.choice(["crash", "torn:37", "torn:300", "torn:5"]))
+                        ex.gen_state["crash_used"] = True
+                        ex.probe("perturb.crash_redeliver")
                     if kind == "split":
                         path = paths[0]
                         old = ex.w.read(repo, path)
@@ -100,6 +112,12 @@ class C14(C02):
             return None
         if in_progress(ex.w, ex.repos["r0"]):
             return None
+        if any(o.get("b_crash") for o in ex.trace.get("ops", [])[:i + 1]):
+            from .c01 import check_blame
+            v = check_blame(ex.b, ex.b.repos["r0"], ex.sessions, one_sided=True)
+            if v:
+                v["class"] = "after_crashed_report_" + v["class"]
+            return v
         return compare_pair(ex, what=("notes", "blame"))
 
     def final(self, ex, cfg):
